@@ -48,3 +48,95 @@ package report
 //@   ensures counts: result.PacketCount == stream.packetCount && result.OctetCount == stream.octetCount
 //@   ensures ntp: result.NTPTime == ntp.ToNTP(now)
 //@   ensures rtp_time: result.RTPTime == stream.lastRTPTimeRTP + uint32(now.Sub(stream.lastRTPTimeTime).Seconds() * stream.clockRate)
+//@
+//@ # ---- receiver stream (property C06)
+//@
+//@ # G[x]      : x was received and is within the 8192-packet history behind the highest sequence number
+//@ # ext       : 65536 + the true (unbounded) extended highest sequence number received
+//@ # extReport : the value of ext-like counter for lastReportSeqnum (ext at the previous report; first packet - 1 initially)
+//@ ghost (receiverStream) G [uint16]bool
+//@ ghost (receiverStream) ext uint64
+//@ ghost (receiverStream) extReport uint64
+//@
+//@ def rbit(A [int]uint64, off int, x uint16) bool := (A[off + int((x % 8192) / 64)] & (uint64(1) << ((x % 8192) % 64))) != 0
+//@ def rsbit(s *receiverStream, x uint16) bool := rbit(elems(s.packets), offset(s.packets), x)
+//@ # number of sequence numbers in [a, b) whose history bit is not set
+//@ def rec unset(A [int]uint64, off int, a uint16, b uint16) uint32 := ite(a == b, 0, unset(A, off, a, b - 1) + ite(rbit(A, off, b - 1), uint32(0), uint32(1)))
+//@
+//@ pred rinv(s *receiverStream) := s.size == 128 && len(s.packets) == 128 && s.totalLost <= 0xFFFFFF
+//@     && (!s.started ==> s.seqnumCycles == 0 && s.lastSeqnum == 0 && s.lastReportSeqnum == 0)
+//@     && (s.started ==> uint16(s.ext) == s.lastSeqnum && uint16((s.ext >> 16) - 1) == s.seqnumCycles && s.ext >= 65536
+//@          && uint16(s.extReport) == s.lastReportSeqnum && s.extReport <= s.ext && s.extReport >= 65535
+//@          && s.G[s.lastSeqnum] && (forall x uint16 :: s.G[x] ==> s.lastSeqnum - x < 8192)
+//@          && (s.ext - s.extReport <= 8192 && s.lastSeqnum != s.lastReportSeqnum ==> rsbit(s, s.lastSeqnum))
+//@          && (s.ext - s.extReport <= 8192 ==> (forall x uint16 :: 0 < x - s.lastReportSeqnum && x - s.lastReportSeqnum < s.lastSeqnum - s.lastReportSeqnum ==> (rsbit(s, x) <==> s.G[x]))))
+//@
+//@ def absf(d float64) float64 := ite(d < 0, -d, d)
+//@
+//@ func newReceiverStream
+//@   modifies nothing
+//@   ensures fresh: fresh(result)
+//@   ensures init: result.ssrc == ssrc && !result.started && result.totalLost == 0 && result.lastSenderReport == 0 && result.lastSenderReportTime.IsZero()
+//@   ensures inv: rinv(result)
+//@
+//@ func (*receiverStream).processRTP
+//@   requires inv: rinv(stream)
+//@   requires hdr: pktHeader != nil
+//@   requires short_history: stream.ext < (1 << 62)
+//@   requires in_history: stream.started ==> (pktHeader.SequenceNumber - stream.lastSeqnum < 32768 || stream.lastSeqnum - pktHeader.SequenceNumber < 8192)
+//@   modifies stream.packets[*], stream.started, stream.seqnumCycles, stream.lastSeqnum, stream.lastReportSeqnum, stream.lastRTPTimeRTP, stream.lastRTPTimeTime, stream.jitter, stream.m
+//@   ghost stream.G := ite(!old(stream.started), (lambda x uint16 :: x == pktHeader.SequenceNumber),
+//@        ite(pktHeader.SequenceNumber - old(stream.lastSeqnum) > 0 && pktHeader.SequenceNumber - old(stream.lastSeqnum) < 32768,
+//@            (lambda x uint16 :: x == pktHeader.SequenceNumber || (old(stream.G)[x] && pktHeader.SequenceNumber - x < 8192)),
+//@            (lambda x uint16 :: x == pktHeader.SequenceNumber || old(stream.G)[x])))
+//@   ghost stream.ext := ite(!old(stream.started), 65536 + uint64(pktHeader.SequenceNumber),
+//@        ite(pktHeader.SequenceNumber - old(stream.lastSeqnum) > 0 && pktHeader.SequenceNumber - old(stream.lastSeqnum) < 32768,
+//@            old(stream.ext) + uint64(pktHeader.SequenceNumber - old(stream.lastSeqnum)), old(stream.ext)))
+//@   ghost stream.extReport := ite(!old(stream.started), 65535 + uint64(pktHeader.SequenceNumber), old(stream.extReport))
+//@   ensures inv: rinv(stream)
+//@   ensures started: stream.started
+//@   ensures first: !old(stream.started) ==> stream.lastSeqnum == pktHeader.SequenceNumber && stream.lastReportSeqnum == pktHeader.SequenceNumber - 1 && stream.jitter == old(stream.jitter)
+//@   ensures report_cursor: old(stream.started) ==> stream.lastReportSeqnum == old(stream.lastReportSeqnum)
+//@   ensures totals: stream.totalLost == old(stream.totalLost) && stream.lastSenderReport == old(stream.lastSenderReport) && stream.lastSenderReportTime == old(stream.lastSenderReportTime)
+//@   ensures clock: stream.lastRTPTimeRTP == pktHeader.Timestamp && stream.lastRTPTimeTime == now
+//@   ensures jitter_step: old(stream.started) ==> stream.jitter == old(stream.jitter) +
+//@        (absf(now.Sub(old(stream.lastRTPTimeTime)).Seconds() * stream.clockRate - float64(int32(pktHeader.Timestamp - old(stream.lastRTPTimeRTP)))) - old(stream.jitter)) / 16
+//@   loop 1 invariant range: i - old(stream.lastSeqnum) - 1 <= pktHeader.SequenceNumber - old(stream.lastSeqnum) - 1
+//@   loop 1 invariant cleared: forall x uint16 :: ((x - old(stream.lastSeqnum) - 1) % 8192) < i - old(stream.lastSeqnum) - 1 ==> !rsbit(stream, x)
+//@   loop 1 invariant kept: forall x uint16 :: ((x - old(stream.lastSeqnum) - 1) % 8192) >= i - old(stream.lastSeqnum) - 1 ==> (rsbit(stream, x) <==> (x % 8192 == pktHeader.SequenceNumber % 8192 || old(rsbit(stream, x))))
+//@   loop 1 decreases pktHeader.SequenceNumber - i
+//@
+//@ func (*receiverStream).processSenderReport
+//@   requires sr != nil
+//@   modifies stream.lastSenderReport, stream.lastSenderReportTime, stream.m
+//@   ensures lsr: stream.lastSenderReport == uint32(sr.NTPTime >> 16)
+//@   ensures lsr_time: stream.lastSenderReportTime == now
+//@
+//@ # packets lost in the interval since the previous report: unset history bits strictly between the two cursors
+//@ def lostInterval(s *receiverStream) uint32 := ite(s.lastSeqnum == s.lastReportSeqnum, 0,
+//@      unset(elems(s.packets), offset(s.packets), s.lastReportSeqnum + 1, s.lastSeqnum))
+//@
+//@ func (*receiverStream).generateReport$1
+//@   inline
+//@   loop 1 invariant range: 0 < i - stream.lastReportSeqnum && i - stream.lastReportSeqnum <= stream.lastSeqnum - stream.lastReportSeqnum
+//@   loop 1 invariant count: ret == unset(elems(stream.packets), offset(stream.packets), stream.lastReportSeqnum + 1, i)
+//@   loop 1 invariant bound: ret <= uint32(i - stream.lastReportSeqnum - 1)
+//@   loop 1 decreases stream.lastSeqnum - i
+//@
+//@ func (*receiverStream).generateReport
+//@   requires inv: rinv(stream)
+//@   requires within_history: stream.started ==> stream.ext - stream.extReport <= 8192
+//@   modifies stream.totalLost, stream.lastReportSeqnum, stream.m
+//@   ghost stream.extReport := old(stream.ext)
+//@   ensures inv: rinv(stream)
+//@   ensures fresh: fresh(result)
+//@   ensures shape: len(result.Reports) == 1 && result.SSRC == stream.receiverSSRC && result.Reports[0].SSRC == stream.ssrc
+//@   ensures ext_highest: stream.started ==> result.Reports[0].LastSequenceNumber == uint32(stream.ext - 65536)
+//@   ensures ext_highest_zero: !stream.started ==> result.Reports[0].LastSequenceNumber == 0
+//@   ensures total_lost: stream.totalLost == ite(old(stream.totalLost) + old(lostInterval(stream)) > 0xFFFFFF, 0xFFFFFF, old(stream.totalLost) + old(lostInterval(stream)))
+//@   ensures total_lost_reported: result.Reports[0].TotalLost == stream.totalLost
+//@   ensures fraction: result.Reports[0].FractionLost == uint8(float64(old(lostInterval(stream)) * 256) / float64(old(stream.lastSeqnum - stream.lastReportSeqnum)))
+//@   ensures lsr: result.Reports[0].LastSenderReport == stream.lastSenderReport
+//@   ensures dlsr: result.Reports[0].Delay == ite(stream.lastSenderReportTime.IsZero(), 0, uint32(now.Sub(stream.lastSenderReportTime).Seconds() * 65536))
+//@   ensures jitter: result.Reports[0].Jitter == uint32(stream.jitter)
+//@   ensures cursor: stream.lastReportSeqnum == stream.lastSeqnum
